@@ -39,3 +39,72 @@ Theorem C06_collection_unchanged_by_failed_round :
     /\ persister s2 = PIdle.
 Proof. exact failed_update_keeps_base. Qed.
 Print Assumptions C06_collection_unchanged_by_failed_round.
+
+(* ---- the faithful model of a persistence round and its error paths (StoreOps.v):
+   files with existence / reference count / scheduled-for-removal / complete footers /
+   un-synced footers, in-memory Footer objects, the served footer, the stack waiting in
+   the persister; every fallible step of store.go persist(), store_compact.go
+   compactMaybe()/compact() and store_footer.go persistFooter() in code order with the
+   code's own reaction to a failure; an arbitrary failure oracle; any sequence of round
+   kinds (append, partial compaction, full compaction, no-op), with persister retries *)
+From Moss Require Import StoreOps StoreOpsFacts.
+
+(* (a) the served footer always lives in a file that exists and is not scheduled for removal *)
+Theorem C06_served_footer_alive :
+  forall o fo ks,
+  let st := reachable o fo ks in
+  forall f, o_file (cur st) = Some f ->
+    f_exists (files st f) = true /\ f_doomed (files st f) = false /\
+    f_header (files st f) = true /\ f_refs (files st f) = 1%nat /\
+    In {| d_id := s_cur st; d_content := o_content (cur st) |} (f_footers (files st f)).
+Proof. exact served_footer_alive_run. Qed.
+Print Assumptions C06_served_footer_alive.
+
+(* (d) no round is applied twice; an error is never reported for a round that was committed *)
+Theorem C06_no_round_applied_twice :
+  forall o fo ks, NoDup (o_content (cur (reachable o fo ks))).
+Proof. exact no_round_applied_twice_run. Qed.
+Print Assumptions C06_no_round_applied_twice.
+
+Theorem C06_no_error_after_commit :
+  forall o fo ks n st, Inv n st ->
+  Forall (fun oc => ro_error oc = true -> ro_committed oc = false) (snd (run o fo n ks st)).
+Proof. exact no_error_after_commit_run. Qed.
+Print Assumptions C06_no_error_after_commit.
+
+(* (e) once operations succeed again the retried round goes through and serves everything *)
+Theorem C06_retry_after_failures_succeeds :
+  forall o fo ks k,
+  k <> RNoop ->
+  (forall s, fo (length ks) s = false) ->
+  let st := reachable o fo ks in
+  let st' := fst (persister_round o fo (length ks) k st) in
+  let oc := snd (persister_round o fo (length ks) k st) in
+  ro_error oc = false /\ dirty st' = [] /\
+  o_content (cur st') = o_content (cur st) ++ ro_handed oc /\
+  incl (dirty st) (ro_handed oc).
+Proof. exact retry_after_failures_succeeds. Qed.
+Print Assumptions C06_retry_after_failures_succeeds.
+
+(* (f) close + reopen serves the last served footer (when the newest file is the served one) *)
+Theorem C06_reopen_serves_last_served :
+  forall n st f,
+  Inv n st -> Newest st -> o_file (cur st) = Some f -> dirty st = [] ->
+  reopen (close_all st) = ReopenServes f {| d_id := s_cur st; d_content := o_content (cur st) |}.
+Proof. exact reopen_serves_last_served. Qed.
+Print Assumptions C06_reopen_serves_last_served.
+
+(* ... and without that side condition it is FALSE of the code as it stands (observation O2
+   in DESIGN.md, reproduced on the real code with two injected failures): a full compaction
+   whose footer sync fails AND whose clean-up Stat fails leaves a newer file with a complete
+   footer behind; later rounds appended to the older file are lost by the next open *)
+Theorem C06_reopen_after_two_failures_refuted :
+  exists o ks fo,
+    let st := reachable o fo ks in
+    Forall (fun oc => ro_error oc = false) (skipn 2 (snd (run o fo 0 ks init))) /\
+    dirty st = [] /\ o_file (cur st) = Some 0%nat /\ o_content (cur st) = [0; 1; 3]%nat /\
+    reopen (close_all st) = ReopenServes 1 {| d_id := 2; d_content := [0; 1]%nat |} /\
+    dir_of (close_all st) = [0; 1]%nat /\
+    dir_after_reopen o (close_all st) = [1]%nat.
+Proof. exact reopen_serves_what_was_served_refuted. Qed.
+Print Assumptions C06_reopen_after_two_failures_refuted.
